@@ -154,6 +154,17 @@ pub fn parse_eof(src: &'static str) -> Report {
     .with_source_code(src)
 }
 
+pub fn parse_program_too_long(span: Span, src: &'static str) -> Report {
+    miette!(
+        severity = Severity::Error,
+        code = "parse::program_too_long",
+        help = "large .blkw or .stringz directives count towards this limit",
+        labels = vec![LabeledSpan::at(span, "first statement that does not fit")],
+        "Program does not fit in the 16-bit address space",
+    )
+    .with_source_code(src)
+}
+
 pub fn parse_lit_range(span: Span, src: &'static str, bits: Bits) -> Report {
     miette!(
         severity = Severity::Error,
